@@ -275,6 +275,7 @@ func main() {
 		}
 	}
 	embeddedCases(o)
+	omitCases(o)
 	m := o.N(2000, 20)
 	for i := 0; i < m; i++ {
 		var g *c01x.GV
